@@ -31,6 +31,14 @@ class AliasedFactory(abc.ABC):
     aliases: Set[str] = set()
     """class aliases for :func:`from_alias`"""
 
+    _num_registered: int = 0
+    _registration_index: int = 0
+
+    def __init_subclass__(cls, **kwargs):
+        super().__init_subclass__(**kwargs)
+        AliasedFactory._num_registered += 1
+        cls._registration_index = AliasedFactory._num_registered
+
     @classmethod
     def from_alias(cls: Type[T], alias: str, *args, **kwargs) -> T:
         """Factory method for initializing a subclass that goes by an alias
@@ -55,18 +63,23 @@ class AliasedFactory(abc.ABC):
         ValueError
             Alias can't be found
         """
+        match = None
         stack = [cls]
-        pushed_children = set()
+        seen = set()
         while stack:
-            parent = stack.pop()
-            if parent not in pushed_children:
-                children = parent.__subclasses__()
-                stack.append(parent)
-                stack.extend(children)
-                pushed_children.add(parent)
-            elif alias in parent.aliases:
-                return parent(*args, **kwargs)
-        raise ValueError(f"Cannot find subclass with alias '{alias}'")
+            subclass = stack.pop()
+            if subclass in seen:
+                continue
+            seen.add(subclass)
+            stack.extend(subclass.__subclasses__())
+            if alias in subclass.aliases and (
+                match is None
+                or subclass._registration_index > match._registration_index
+            ):
+                match = subclass
+        if match is None:
+            raise ValueError(f"Cannot find subclass with alias '{alias}'")
+        return match(*args, **kwargs)
 
 
 def alias_factory_subclass_from_arg(
